@@ -274,11 +274,43 @@ def check_valid(case, rec):
             want2 = numpy.transpose(want, [idx.index(x) for x in ao]) if idx else want
             if got2.shape != want2.shape or not numpy.allclose(got2, want2, rtol=1e-10, atol=1e-12):
                 raise Violation('wrong-value', f'ns.res_{"".join(ao)} = {s!r}: {got2.tolist()} != {want2.tolist()}', where='value:assign')
+        # the same string through expression version 1 (explicit index order), where the construct exists there
+        if not any(n['t'] == 'call' and n['gen'] for n in _walk(tree)):
+            check_v1_string(s, case['vars'], ao if sorted(ao) == order else order, want, idx, bool(case['ws'] & 4))
+            rec.label('v1-generated')
     depth = _depth(tree)
     rec.nontrivial = _nsummed(tree) >= 1 and depth >= 2
     rec.key = hashlib.sha1(s.encode()).hexdigest()[:16]
     for k in _kinds(tree): rec.label('node:' + k)
     rec.label('depth:%d' % depth)
+
+
+def namespace_v1(vars):
+    from nutils import expression_v1
+    ns = expression_v1.Namespace(functions=dict(sqr=lambda u: u ** 2))
+    for name, shape in vars.items():
+        setattr(ns, name, val(name, shape))
+    return ns
+
+
+def check_v1_string(s, vars, ao, want, idx, assign):
+    from nutils import expression_v1
+    ns = namespace_v1(vars)
+    want1 = numpy.transpose(want, [idx.index(x) for x in ao]) if idx else want
+    how = f'ns.res_{"".join(ao)} = {s!r}' if assign else f'ns.eval_{"".join(ao)}({s!r})'
+    try:
+        if assign:
+            setattr(ns, 'res' + ('_' + ''.join(ao) if ao else ''), s)
+            arr = ns.res
+        else:
+            arr = getattr(ns, 'eval_' + ''.join(ao))(s)
+    except expression_v1.ExpressionSyntaxError as e:
+        raise Violation('valid-rejected', f'v1 {how}: {str(e).splitlines()[0]}', where='v1-valid-rejected:' + str(e).split('.')[0][:40])
+    except Exception as e:
+        raise Violation('valid-raised', f'v1 {how}: {type(e).__name__}: {str(e)[:200]}', where='v1-valid-raised:' + type(e).__name__)
+    got = _eval(arr)
+    if got.shape != want1.shape or not numpy.allclose(got, want1, rtol=1e-10, atol=1e-12):
+        raise Violation('wrong-value', f'v1 {how}: {got.tolist()} != reading {want1.tolist()}', where='value:v1')
 
 
 def _walk(n):
@@ -352,7 +384,8 @@ def _free_idx(n):
 
 CORRUPTIONS = ['third-index', 'length-mismatch', 'index-sets-differ', 'unknown-name', 'number-not-first', 'no-space-plus', 'no-space-minus', 'unbalanced', 'mismatched-bracket',
                'space-before-caret', 'space-after-caret', 'index-in-denominator', 'index-in-exponent', 'repeated-fraction', 'repeated-power', 'variable-called', 'function-as-variable',
-               'too-many-indices', 'too-few-indices', 'numeral-out-of-range', 'trailing-operator', 'negated-second-term', 'symbols-after-scope', 'empty', 'uppercase-index', 'trace-length-mismatch']
+               'too-many-indices', 'too-few-indices', 'numeral-out-of-range', 'trailing-operator', 'negated-second-term', 'symbols-after-scope', 'empty', 'uppercase-index', 'trace-length-mismatch',
+               'gen-third-in-term', 'gen-third-in-term', 'gen-third-in-term', 'gen-fraction-reuse', 'gen-fraction-reuse', 'gen-fraction-reuse', 'gen-length-mismatch', 'gen-length-mismatch', 'gen-index-sets-differ', 'gen-index-sets-differ']
 
 
 @st.composite
@@ -420,6 +453,96 @@ def corrupt(case):
         return 'wa_I', vars
     if c == 'trace-length-mismatch':
         return 'wm_ii', vars
+    if c.startswith('gen-'):
+        return corrupt_tree(case)
+    return None
+
+
+def _letters(n):
+    out = []
+    for m in _walk(n):
+        if m['t'] == 'var': out += [x for x in m['idx'] if x.isalpha()]
+        elif m['t'] == 'call': out += list(m['gen'])
+    return out
+
+
+def _direct_summed(T):
+    """letters summed at the level of term T itself: between the free indices of two items, or traced within a variable item"""
+    flat = [x for i in T['items'] for x in _free_idx(i)]
+    out = {x for x in flat if flat.count(x) >= 2}
+    for i in T['items']:
+        if i['t'] == 'var':
+            l = [x for x in i['idx'] if x.isalpha()]
+            out |= {x for x in l if l.count(x) >= 2}
+    return out
+
+
+def corrupt_tree(case):
+    """tree-level corruption of a generated valid expression; returns (string, vars, v1_asserted) or None"""
+    import copy
+    base = case['base']; c = case['c']; pick = case['pick']
+    tree = copy.deepcopy(base['tree'])
+    vars = dict(base['vars'])
+    def newvar(idx, bump=None):
+        shape = [LEN[x] + (1 if k == bump else 0) for k, x in enumerate(idx)]
+        name = 'w' + ''.join(chr(97 + n) for n in shape) + 'q'
+        vars[name] = shape
+        return dict(t='var', name=name, idx=list(idx))
+    terms = [n for n in _walk(tree) if n['t'] == 'term']
+    v1ok = not any(n['t'] == 'call' and n['gen'] for n in _walk(tree))
+    if c == 'gen-third-in-term':
+        cand = []
+        for T in terms:
+            free = set(_free_idx(T)); direct = _direct_summed(T)
+            for x in sorted(set(_letters(T)) - free):
+                cand.append((T, x, x in direct))
+        if not cand: return None
+        T, x, direct = cand[pick % len(cand)]
+        T['items'].insert((pick // 7) % (len(T['items']) + 1), newvar([x]))
+        return render(tree, base['ws']), vars, v1ok and direct
+    if c == 'gen-fraction-reuse':
+        # numerator index (free or summed in the numerator) used again, summed, in the denominator
+        slots = []       # (container, key, term)
+        for n in _walk(tree):
+            if n['t'] == 'expr':
+                for k, (sign, t) in enumerate(n['terms']):
+                    if t['t'] == 'term': slots.append((n['terms'][k], 1, t, None))
+                    else: slots.append((n['terms'][k], 1, t['n'], t))
+        cand = []
+        for cont, key, T, frac in slots:
+            direct = _direct_summed(T) | set(_free_idx(T))
+            for x in sorted(set(_letters(T))):
+                cand.append((cont, key, T, frac, x, x in direct))
+        if not cand: return None
+        cont, key, T, frac, x, direct = cand[pick % len(cand)]
+        extra = [newvar([x, x])] if (pick // 3) % 2 else [newvar([x]), newvar([x])]
+        if frac is None:
+            cont[key] = dict(t='frac', n=T, d=dict(t='term', num=None, items=extra))
+        else:
+            frac['d']['items'] = frac['d']['items'] + extra
+        return render(tree, base['ws']), vars, v1ok and direct
+    if c == 'gen-length-mismatch':
+        allv = [n for n in _walk(tree) if n['t'] == 'var']
+        count = _letters(tree)
+        cand = [(v, k) for v in allv for k, x in enumerate(v['idx']) if x.isalpha() and count.count(x) >= 2]
+        if not cand: return None
+        v, k = cand[pick % len(cand)]
+        letters_pos = [j for j, x in enumerate(v['idx']) if x.isalpha()]
+        if len(letters_pos) != len(v['idx']): return None     # keep numeral-indexed variables out of it
+        nv = newvar(v['idx'], bump=k)
+        # a traced pair must stay consistent apart from the bumped axis: handled by the parser as a mismatch as well
+        v['name'] = nv['name']
+        return render(tree, base['ws']), vars, v1ok
+    if c == 'gen-index-sets-differ':
+        exprs = [n for n in _walk(tree) if n['t'] == 'expr' and len(n['terms']) >= 2]
+        if not exprs: return None
+        e = exprs[pick % len(exprs)]
+        unused = [x for x in LETTERS if x not in _letters(tree)]
+        if not unused: return None
+        sign_term = e['terms'][(pick // 5) % len(e['terms'])]
+        T = sign_term[1] if sign_term[1]['t'] == 'term' else sign_term[1]['n']
+        T['items'].append(newvar([unused[0]]))
+        return render(tree, base['ws']), vars, v1ok
     return None
 
 
@@ -428,20 +551,39 @@ def check_corrupt(case, rec):
     r = corrupt(case)
     if r is None or r[0] is None:
         raise Discard('corruption-not-applicable')
-    s, vars = r
+    s, vars = r[:2]
+    v1 = r[2] if len(r) > 2 else True      # the fixed rule-targeted strings violate rules that both versions document in the same words
     ns = namespace(vars)
     with warnings.catch_warnings():
         warnings.simplefilter('ignore')
         try:
             arr = s @ ns
         except expression_v2.ExpressionSyntaxError:
-            rec.nontrivial = True
-            rec.key = hashlib.sha1((case['c'] + s).encode()).hexdigest()[:16]
-            rec.label('rejected:' + case['c'])
-            return
+            pass
         except Exception as e:
             raise Violation('wrong-exception', f'{case["c"]}: {s!r} raised {type(e).__name__}: {str(e)[:200]} instead of ExpressionSyntaxError', where=case['c'] + ':' + type(e).__name__)
-    raise Violation('invalid-accepted', f'{case["c"]}: {s!r} was evaluated to an array of shape {numpy.shape(arr)}', where='accepted:' + case['c'])
+        else:
+            raise Violation('invalid-accepted', f'{case["c"]}: {s!r} was evaluated to an array of shape {numpy.shape(arr)}', where='accepted:' + case['c'])
+        if v1:
+            # the same rule is documented for version 1; the index order given to eval_ is irrelevant for a string that must not parse
+            from nutils import expression_v1
+            ns1 = namespace_v1(vars)
+            # an invalid string must be rejected whatever index order is requested; try the plausible ones so that a wrong
+            # acceptance is not masked by a mismatch between the requested and the actual free indices
+            frees = [''.join(sorted(case['base']['free']))] if case['c'].startswith('gen-') else ['', 'i', 'ij', ''.join(sorted(case['base']['free']))]
+            for free in dict.fromkeys(frees):
+                try:
+                    arr = getattr(ns1, 'eval_' + free)(s)
+                except expression_v1.ExpressionSyntaxError:
+                    continue
+                except Exception as e:
+                    raise Violation('wrong-exception', f'v1 {case["c"]}: {s!r} raised {type(e).__name__}: {str(e)[:200]} instead of ExpressionSyntaxError', where='v1:' + case['c'] + ':' + type(e).__name__)
+                else:
+                    raise Violation('invalid-accepted', f'v1 {case["c"]}: eval_{free}({s!r}) was evaluated to an array of shape {numpy.shape(arr)}', where='v1-accepted:' + case['c'])
+            rec.label('v1-rejected:' + case['c'])
+    rec.nontrivial = True
+    rec.key = hashlib.sha1((case['c'] + s).encode()).hexdigest()[:16]
+    rec.label('rejected:' + case['c'])
 
 
 # ---- expression v1 (core forms) ---------------------------------------------------------------------------
